@@ -20,6 +20,13 @@
 (*                 (h.content, changed by the mutator actions only); every export is bound to the content at   *)
 (*                 that moment, i.e. the trace is a behaviour iff EVERY export of the history is accepted by   *)
 (*                 the ROM with header fields that describe the file and decodes what the object held then.    *)
+(*                 OWNERSHIP (Sb2Own enumerates these histories): the caller's own mutable buffers are state   *)
+(*                 of this spec too (h.own).  HBuf = the caller creates a buffer; HTouch = the caller modifies *)
+(*                 ITS buffer (in place / shorter / longer) - the content of the builder object does not       *)
+(*                 change; HMake = the caller constructs a LOAD command from a buffer (the bytearray itself or *)
+(*                 a copy): what is GIVEN is what the buffer holds at that moment, computed here from the      *)
+(*                 caller's own steps; HPut = that command object is appended to the last section / becomes a  *)
+(*                 new section (the same object may be put more than once).                                    *)
 (*  Corruption classes of the tamper / wrongkek modes: one flipped bit per field class, a forged command with  *)
 (*  a repaired checksum, TRUNCATION (the file cut at every structural boundary - see CutsOk - and inside the   *)
 (*  parts) and EXTENSION (bytes appended).  A tampered "rom" / "anchor" trace must NOT be a behaviour.         *)
@@ -28,7 +35,8 @@ Traces == ndJsonDeserialize(IOEnv.TRACE_FILE)
 VARIABLES tid, l,
           pend,     \* clause markers that must be consumed next
           psec, pcmd,  \* parse traces: sections / commands of the current section seen so far
-          h         \* history traces: [content: what the live object holds now (sections as given), nexp: exports so far, idle: no file is being walked]
+          h         \* history traces: [content: what the live object holds now (sections as given), nexp: exports so far, idle: no file is being walked,
+                    \*                   own: the caller's buffers (byte sequences) as they are now, made: the LOAD commands made from them (as given)]
 tvars == <<st, hdr, cur, sec, needCert, hm, body, left, cmdAt, cov, certEnd, sigEnd, macSum, dec, tid, l, pend, psec, pcmd, h>>
 Tr == Traces[tid]
 T == Tr.ev
@@ -68,7 +76,7 @@ FieldOk(n) ==
     [] OTHER -> FALSE
 
 TInit == /\ tid \in 1..Len(Traces) /\ l = 1 /\ RInit /\ pend = <<>> /\ psec = 0 /\ pcmd = 0 /\ TLCSet(tid, 1) /\ TLCSet(SoftBase + tid, {})
-         /\ h = [content |-> IF Hist THEN Tr.given.secs ELSE <<>>, nexp |-> 0, idle |-> Hist]
+         /\ h = [content |-> IF Hist THEN Tr.given.secs ELSE <<>>, nexp |-> 0, idle |-> Hist, own |-> <<>>, made |-> <<>>]
 
 TField == /\ l <= Len(T) /\ E.ev = "Field" /\ pend # <<>> /\ E.name = Head(pend)
           /\ Soft(E.name, FieldOk(E.name))
@@ -117,6 +125,28 @@ THAppendCmd == /\ HIs("HAppendCmd") /\ h.content # <<>>
 THReplaceCmd == /\ HIs("HReplaceCmd") /\ h.content # <<>>
                 /\ h' = [h EXCEPT !.content[Len(h.content)].cmds = [@ EXCEPT ![Len(@)] = E.c]] /\ RStay /\ AdvH
 THSetUid == HIs("HSetUid") /\ h.content # <<>> /\ h' = [h EXCEPT !.content[1].uid = E.uid] /\ RStay /\ AdvH
+\* ---- ownership: the caller's buffers.  What is given to the builder is what a buffer holds at the moment of the call that hands it over;
+\* a later modification of the buffer by its owner (THTouch) changes h.own and NOTHING the builder object holds
+IsByte(x) == x \in 0..255
+Bytes(s) == \A i \in 1..Len(s) : IsByte(s[i])
+Touched(b, e) == CASE e.kind = "poke"   -> [i \in 1..Len(b) |-> IF i > e.at /\ i <= e.at + Len(e.bytes) THEN e.bytes[i - e.at] ELSE b[i]]      \* overwritten in place
+                   [] e.kind = "shrink" -> SubSeq(b, 1, e.at)                                                                                \* cut to e.at bytes
+                   [] e.kind = "grow"   -> b \o e.bytes                                                                                      \* extended
+TouchOk(b, e) == /\ Bytes(e.bytes)
+                 /\ CASE e.kind = "poke"   -> e.at >= 0 /\ e.bytes # <<>> /\ e.at + Len(e.bytes) <= Len(b)
+                      [] e.kind = "shrink" -> e.at >= 0 /\ e.at < Len(b) /\ e.bytes = <<>>
+                      [] e.kind = "grow"   -> e.bytes # <<>>
+                      [] OTHER -> FALSE
+LoadOf(e, data) == [k |-> "load", a |-> e.a, n |-> Zero, x |-> Zero, f |-> 0, m |-> e.m, d |-> data]
+THBuf == HIs("HBuf") /\ Bytes(E.content) /\ h' = [h EXCEPT !.own = Append(@, E.content)] /\ RStay /\ AdvH
+THTouch == /\ HIs("HTouch") /\ E.buf \in 1..Len(h.own) /\ TouchOk(h.own[E.buf], E)
+           /\ h' = [h EXCEPT !.own[E.buf] = Touched(@, E)] /\ RStay /\ AdvH
+THMake == /\ HIs("HMake") /\ E.buf \in 1..Len(h.own) /\ h.own[E.buf] # <<>> /\ E.form \in {"buf", "copy"}
+          /\ h' = [h EXCEPT !.made = Append(@, LoadOf(E, h.own[E.buf]))] /\ RStay /\ AdvH
+THPut == /\ HIs("HPut") /\ E.obj \in 1..Len(h.made) /\ h.content # <<>>
+         /\ \/ E.place = "append" /\ h' = [h EXCEPT !.content[Len(h.content)].cmds = Append(@, h.made[E.obj])]
+            \/ E.place = "newsec" /\ h' = [h EXCEPT !.content = Append(@, [uid |-> E.uid, hmacReq |-> E.hmacReq, cmds |-> <<h.made[E.obj]>>])]
+         /\ RStay /\ AdvH
 THExport == /\ HIs("HExport") /\ st \in {"Header", "Accepted"}
             /\ h' = [h EXCEPT !.nexp = @ + 1, !.idle = FALSE]
             /\ st' = "Header" /\ hdr' = [minor |-> 0, flags |-> 0] /\ cur' = 0 /\ sec' = 0 /\ needCert' = FALSE
@@ -153,6 +183,7 @@ TPEnd == /\ Is("PEnd") /\ st = "PContent" /\ E.nsec = psec /\ psec = Len(Ref.sec
 TNext == TField \/ TParseHeader \/ TUnwrap \/ THdrMac \/ TCert \/ TSig \/ TSha \/ TTag \/ THmac \/ TCmd \/ TSecEnd \/ TAccept
          \/ TPOutcome \/ TPField \/ TPSection \/ TPCmd \/ TPSectionEnd \/ TPEnd
          \/ THQuery \/ THAddSection \/ THAppendCmd \/ THReplaceCmd \/ THSetUid \/ THExport
+         \/ THBuf \/ THTouch \/ THMake \/ THPut
 Constr == IF TLCGet(tid) < l THEN TLCSet(tid, l) ELSE TRUE
 Post == \A i \in 1..Len(Traces) :
           /\ \/ TLCGet(i) - 1 = Len(Traces[i].ev)
